@@ -1,5 +1,127 @@
 import Srsim.Spec.AggSpec
-/-! placeholder, replaced by the full theorem file once its proofs are in -/
+import Srsim.Proofs.NumRat
+import Srsim.Proofs.AggSort
+import Srsim.Proofs.AggStream
+import Srsim.Proofs.AggHist
+import Srsim.Proofs.AggOver
+import Srsim.Proofs.AggBuf
+import Mathlib.Data.List.Perm.Basic
+/-!
+# C19 — Aggregated statistics describe exactly the iterations that ran
+
+Theorems about `Agg.toOver`, `Agg.Stream`, `Agg.Buf` (model of `pkg/statistics/agg` and of the
+go-moremath functions it uses) at `α := ℚ`.  Tie: `Driver/C19.lean`.
+-/
 namespace Agg
-theorem C19_empty_sample (m : MathFns Rat) : (toOver m []).isOk = true := rfl
+
+/-- sorting forgets the arrival order -/
+theorem C19_sort_perm (l₁ l₂ : List Rat) (h : l₁.Perm l₂) : sortF l₁ = sortF l₂ :=
+  sortF_eq_of_perm l₁ l₂ h
+
+/-- **Overview statistics are functions of the multiset**: count, minimum, maximum, mean,
+deviation, quartiles and histogram of a sample do not depend on the arrival order (for every
+`sqrt` / cube-root function). -/
+theorem C19_over_perm (m : MathFns Rat) (l₁ l₂ : List Rat) (h : l₁.Perm l₂) : toOver m l₁ = toOver m l₂ :=
+  over_perm m l₁ l₂ h
+
+/-- the streaming statistics count the values, sum them, and track minimum and maximum -/
+theorem C19_stream_basic (l : List Rat) :
+    (Stream.ofList l).count = l.length ∧ (Stream.ofList l).total = sumL l ∧
+    (∀ x ∈ l, (Stream.ofList l).min ≤ x ∧ x ≤ (Stream.ofList l).max) ∧
+    (l ≠ [] → (Stream.ofList l).min ∈ l ∧ (Stream.ofList l).max ∈ l) :=
+  ⟨stream_count l, stream_total l, (stream_minmax l).1, (stream_minmax l).2⟩
+
+/-- Welford's online mean is the arithmetic mean (exact arithmetic) -/
+theorem C19_stream_mean (l : List Rat) (h : l ≠ []) : (Stream.ofList l).mean = sumL l / (l.length : Rat) :=
+  stream_mean l h
+
+/-- Welford's `M2` is the sum of squared deviations, written Σx² − n·mean² (exact arithmetic) -/
+theorem C19_stream_m2 (l : List Rat) :
+    (Stream.ofList l).vM2 = sumL (l.map fun x => x * x) - (l.length : Rat) * ((Stream.ofList l).mean * (Stream.ofList l).mean) :=
+  stream_m2 l
+
+/-- **Streaming statistics are functions of the multiset** (in exact arithmetic: the
+floating-point implementation differs by rounding only). -/
+theorem C19_stream_perm (l₁ l₂ : List Rat) (h : l₁.Perm l₂) : Stream.ofList l₁ = Stream.ofList l₂ := by
+  by_cases h1 : l₁ = []
+  · subst h1
+    rw [h.symm.eq_nil]
+  · have h2 : l₂ ≠ [] := fun e => h1 (by subst e; exact h.eq_nil)
+    have hc : (Stream.ofList l₁).count = (Stream.ofList l₂).count := by
+      rw [stream_count, stream_count, h.length_eq]
+    have ht : (Stream.ofList l₁).total = (Stream.ofList l₂).total := by
+      rw [stream_total, stream_total, sumL_perm h]
+    have hmean : (Stream.ofList l₁).mean = (Stream.ofList l₂).mean := by
+      rw [stream_mean l₁ h1, stream_mean l₂ h2, sumL_perm h, h.length_eq]
+    have hm2 : (Stream.ofList l₁).vM2 = (Stream.ofList l₂).vM2 := by
+      rw [stream_m2 l₁, stream_m2 l₂, hmean, h.length_eq, sumL_perm (h.map _)]
+    obtain ⟨a1, b1⟩ := stream_minmax l₁
+    obtain ⟨a2, b2⟩ := stream_minmax l₂
+    obtain ⟨mn1, mx1⟩ := b1 h1
+    obtain ⟨mn2, mx2⟩ := b2 h2
+    have hmin : (Stream.ofList l₁).min = (Stream.ofList l₂).min :=
+      le_antisymm (a1 _ (h.symm.subset mn2)).1 (a2 _ (h.subset mn1)).1
+    have hmax : (Stream.ofList l₁).max = (Stream.ofList l₂).max :=
+      le_antisymm (a2 _ (h.subset mx1)).2 (a1 _ (h.symm.subset mx2)).2
+    cases hs1 : Stream.ofList l₁
+    cases hs2 : Stream.ofList l₂
+    simp only [hs1, hs2] at hc ht hmean hm2 hmin hmax
+    simp only [Stream.mk.injEq]
+    exact ⟨hc, ht, hmin, hmax, hmean, hm2⟩
+
+/-- the incremental mean and Welford variance used for samples are the textbook ones -/
+theorem C19_meanInc (l : List Rat) (h : l ≠ []) : meanInc l = sumL l / (l.length : Rat) := by
+  rw [meanInc_eq, stream_mean l h]
+
+theorem C19_variance (l : List Rat) (h : 2 ≤ l.length) :
+    variance l = (sumL (l.map fun x => x * x) - (l.length : Rat) * (meanInc l * meanInc l)) / ((l.length : Rat) - 1) := by
+  unfold variance
+  rw [if_neg (by omega), welford_eq, meanInc_eq, ← stream_m2, ofN_rat]
+  congr 1
+  have : 1 ≤ l.length := by omega
+  push_cast [this]
+  rfl
+
+/-- **Histogram sum**: for every positive number of bins, every bound pair and every list of
+values the bin counts add up to the number of values. -/
+theorem C19_hist_sum (mn mx : Rat) (nbins : Nat) (hn : 0 < nbins) (l : List Rat) :
+    histSum (histCounts mn mx nbins l) = l.length :=
+  hist_sum mn mx nbins hn l
+
+/-- every histogram reported by `toOver` sums to the number of values it summarises -/
+theorem C19_over_hist_sum (m : MathFns Rat) (xs : List Rat) (o : Over Rat) (h : toOver m xs = .ok o) :
+    histSum o.hist = xs.length :=
+  over_hist_sum m xs o h
+
+/-- **No crash**: `toOver` never reaches the `make` with a non-positive length — for every list
+of values (empty, single, identical, zero, …), provided `sqrt` and the cube root have the signs
+of the real functions. -/
+theorem C19_no_crash (m : MathFns Rat) (hm : MathOK m) (xs : List Rat) : (toOver m xs).isOk = true :=
+  no_crash m hm xs
+
+/-- **Per cycle**: after any batch of results, in any order, the sample of cycle `i` consists of
+exactly the `i`-th increments of the iterations whose series reaches cycle `i` (in arrival
+order); a cycle nobody reached has the empty sample. -/
+theorem C19_per_cycle (c : Nat) (rs : List (IterRes Rat)) (i : Nat) :
+    (rs.foldl Buf.add (Buf.init c)).cumDealt.getD i [] = rs.filterMap (fun r => (increments 0 r.cumDealt)[i]?) ∧
+    (rs.foldl Buf.add (Buf.init c)).cumTaken.getD i [] = rs.filterMap (fun r => (increments 0 r.cumTaken)[i]?) := by
+  constructor
+  · rw [foldl_cumDealt, show (Buf.init c : Buf Rat).cumDealt = List.replicate c [] from rfl,
+      replicate_nil_getD, List.nil_append]
+  · rw [foldl_cumTaken, show (Buf.init c : Buf Rat).cumTaken = List.replicate c [] from rfl,
+      replicate_nil_getD, List.nil_append]
+
+/-- the number of iterations and the damage-per-cycle sample cover every added result once -/
+theorem C19_counts (c : Nat) (rs : List (IterRes Rat)) :
+    (rs.foldl Buf.add (Buf.init c)).completed = rs.length ∧
+    (rs.foldl Buf.add (Buf.init c)).dpc = rs.map (fun r => r.dealt * 100 / r.av) := by
+  constructor
+  · rw [foldl_completed]; simp [Buf.init]
+  · rw [foldl_dpc]; simp [Buf.init]
+
+/-- the per-cycle increments add back up to the cumulative series -/
+theorem C19_increments_sum (s : List Rat) (last : Rat) :
+    last + sumL (increments last s) = s.getLastD last :=
+  increments_sum s last
+
 end Agg
